@@ -44,7 +44,7 @@ ESSENTIAL_LABELS = {t: ["op:" + o for o in OPS] + ["contract:contracted", "chain
 @st.composite
 def _contract_arg(draw):
     """Fractions shaped like the ones contract() acts on (and near misses)."""
-    kind = draw(st.integers(0, 5))
+    kind = draw(st.integers(0, 7))
     perm = list(draw(st.permutations(DEFAULT_NAMES)))
     k = draw(st.integers(1, 4))
     num_ch = perm[:k]
@@ -73,6 +73,16 @@ def _contract_arg(draw):
             d["vdo"] = [(w if c == num_ch[j] else []) for c in den_ch]
         elif len(den_ch) >= 1:
             d["vdo"] = [[] for _ in den_ch]
+    if kind in (6, 7):
+        # the shapes conditional() / normalize_marginalize() / bayes_expand() produce: a probability over a SUM of (a copy
+        # of) itself, the ranges being any mixture of its children, its parents and names it does not mention
+        if kind == 7 and k < 4:
+            n["pa"] = [[c, None] for c in perm[k : k + draw(st.integers(1, 4 - k))]]
+        rs = sorted(draw(st.lists(st.sampled_from(DEFAULT_NAMES), min_size=1, max_size=3, unique=True)))
+        body = dict(n, ch=list(draw(st.permutations(n["ch"]))))
+        d = {"t": "sum", "rs": rs, "x": body}
+        if draw(st.integers(0, 3)) == 0:
+            return {"t": "frac", "n": d, "d": n}
     return {"t": "frac", "n": n, "d": d}
 
 
